@@ -31,7 +31,9 @@ RULE = ("one run = one session set between blob-exchange peers on simulated TCP.
         "server and from a second peer at once over two connections - the second peer honest too (neck and neck), a "
         "liar that speaks once the honest header is in, or (`pin` mode) a liar that speaks first with a wrong length "
         "and is dropped while the honest writer is open, judged by a follow-up honest request. Whenever a blob is "
-        "verified its length must be an int equal to the bytes on disk. A wire monitor parses everything real servers write. "
+        "verified its length must be an int equal to the bytes on disk. family `serving` (5 %): a node downloads a blob with "
+        "BlobDownloader while a reader's request for the same blob is placed at its own server 0..8 loop iterations after "
+        "the blob became verified; what it announces it must deliver. A wire monitor parses everything real servers write. "
         "Non-trivial = at least one transfer attempted over a re-chunked stream or one misbehaviour fired; "
         "distinct = distinct event-trace digest.")
 COMPONENTS = {
@@ -54,7 +56,8 @@ EXPECTED_PROBES = ['honest_transfer_ok', 'one_byte_fragments', 'header_alone', '
                    'server_closed_hostile', 'closed_by_idle_timeout', 'closed_immediately', 'request_ended_cancelled',
                    'unknown_length_request', 'client_data_received_escape', 'server_data_received_escape', 'recovered_after_net_fault',
                    'honest_transfer_longer_than_idle_timeout', 'race_checked', 'race_two_honest',
-                   'race_liar_during_honest_body', 'race_pin', 'race_pin_followup']
+                   'race_liar_during_honest_body', 'race_pin', 'race_pin_followup',
+                   'serving_checked', 'serving_header_announced_blob']
 
 MAX = 2 * 1024 * 1024
 SERVER_CATALOGUE = ['wrong_hash', 'length_short', 'length_long', 'length_zero', 'length_negative', 'length_huge', 'length_string',
@@ -182,6 +185,21 @@ def gen(run_seed, tier):
                        'second_after': round(r4.choice([0.0, 0.05, 0.3, 0.6, 0.9, r4.random()]), 3),
                        'second_delay': r4.choice([0.0, 0.0, 0.0005, 0.002, 0.01]),
                        'second_start': r4.choice(['early', 'early', 'late'])}]}
+        pass
+    # family `serving`: a node downloads a blob (BlobDownloader) and its own server is asked for the same blob in the
+    # loop iterations right after the blob became verified - while the downloader is still winding up (own stream)
+    r6 = stream('C10.gen.serving', run_seed)
+    if r6.random() < 0.05:
+        n = r6.choice([16385, 65536, 200_000, 500_000, r6.randint(20_000, 300_000)])
+        sc = {'family': 'serving',
+              'timeouts': {'connect': 3.0, 'download': 30.0, 'idle': 30.0, 'transfer': 60.0},
+              'net': {'latency': [0.0005, r6.choice([0.002, 0.02])], 'chunk_mode': r6.choice(['mixed', 'whole']),
+                      'connect_latency': [0.001, 0.01], 'stall_prob': 0.0, 'stall_s': 1.0},
+              'exec_delay': r6.choice([0.0005, 0.002]),
+              'blobs': [{'n': n, 'seed': r6.getrandbits(32), 'kind': 'rand'}],
+              'ops': [{'op': 'serving', 'inject_after': r6.choice([0, 0, 1, 1, 2, 3, 5, 8]),
+                       'know_length': r6.random() < 0.5}]}
+    if sc['family'] == 'race':
         r5 = stream('C10.gen.race_pin', run_seed)
         if r5.random() < 0.3:
             # the liar speaks FIRST (wrong length, then silence), the honest request starts while the lie is in place,
@@ -1021,6 +1039,111 @@ def execute(scenario, keep_trace=False):
                           f'{[e[2:] for e in net.data_received_escapes if e[1] == "client"][:2]}',
                           via='race', jsonlike=False)
 
+    # ---- a node that downloads a blob and is asked for it at once -------------------------------------------------
+    async def serving_session(op):
+        from lbry.blob_exchange.serialization import BlobRequest
+        await start_real_server()                                  # P: honest, holds the blob
+        S_IP = '8.8.4.4'
+        node = state['clients'][0] = await make_node('s')          # S: downloads from P and serves what it has
+        bm = node['bm']
+        s_server = BlobServer(loop, bm, 'bQEaw42GXsgCAGio1nxFncJSyRmnztSCjP', idle_timeout=T['idle'],
+                              transfer_timeout=T['transfer'])
+        s_server.start_server(PORT, S_IP)
+        await s_server.started_listening.wait()
+        node['server'] = s_server
+        h, content = hashes[0], blobs[0]
+        n = len(content)
+
+        class Reader(asyncio.Protocol):                            # C: an honest reader of S (raw, so that its request
+            def __init__(self):                                    # can be placed in a chosen loop iteration)
+                self.buf = bytearray()
+                self.lost = None
+
+            def connection_made(self, transport):
+                self.transport = transport
+
+            def data_received(self, data):
+                self.buf += data
+
+            def connection_lost(self, exc):
+                self.lost = loop.time()
+        reader = Reader()
+        ct, st = net.attach_raw_client(S_IP, PORT, reader)
+        await asyncio.sleep(0.05)
+        request = BlobRequest.make_request_for_blob_hash(h).serialize()
+        fired = {'at': None}
+
+        def watch(_loop):
+            blob = bm.blobs.get(h)
+            if fired['at'] is None and blob is not None and blob.get_is_verified():
+                fired['at'] = loop.time()
+                # the request reaches S's server `inject_after` loop iterations after the blob became verified
+                def later(k):
+                    if k <= 0:
+                        run.faults['request_right_after_verified'] += 1
+                        st._protocol.data_received(request)
+                    else:
+                        loop.call_soon(later, k - 1)
+                loop.call_soon(later, int(op.get('inject_after', 0)))
+        loop.after_handle = watch
+        q = asyncio.Queue()
+        downloader = BlobDownloader(loop, node['conf'], bm, q)
+        q.put_nowait([make_kademlia_peer(None, SERVER_IP, tcp_port=PORT)])
+        state['judged'] += 1
+        try:
+            await asyncio.wait_for(downloader.download_blob(h, n if op.get('know_length') else None), 120)
+        except Exception as e:  # noqa
+            loop.after_handle = None
+            run.violation('C10.honest_transfer_failed', f'the downloading node itself did not get the blob: {type(e).__name__}: {e}',
+                          via='serving', jsonlike=False)
+            return
+        # give S's answer to C the time a transfer may take
+        deadline = loop.time() + T['transfer'] + T['idle'] + 5.0
+        while loop.time() < deadline and reader.lost is None:
+            buf = bytes(reader.buf)
+            k = buf.find(b'}')
+            if k >= 0 and len(buf) - (buf.rfind(b'}', 0, 400) + 1) >= n:
+                break
+            await asyncio.sleep(0.05)
+        loop.after_handle = None
+        downloader.close()
+        buf = bytes(reader.buf)
+        run.probes['serving_checked'] += 1
+        run.ev('serving', op.get('inject_after'), fired['at'] is not None, len(buf), reader.lost is not None)
+        if fired['at'] is None:
+            run.probes['serving_never_fired'] += 1
+            return
+        # header = the first top-level JSON object; everything after it is the body
+        depth, end = 0, -1
+        for i, c in enumerate(buf[:2000]):
+            if c == 0x7b:
+                depth += 1
+            elif c == 0x7d:
+                depth -= 1
+                if depth == 0:
+                    end = i
+                    break
+        header = None
+        if end >= 0:
+            try:
+                header = json.loads(buf[:end + 1])
+            except ValueError:
+                header = None
+        body = buf[end + 1:] if end >= 0 else b''
+        inc = (header or {}).get('incoming_blob') or {}
+        if inc.get('blob_hash') == h and inc.get('length') == n:
+            run.probes['serving_header_announced_blob'] += 1
+            if body != content:
+                run.violation('C10.honest_transfer_failed', f'a node that had just downloaded and verified a blob of {n} bytes '
+                              f'announced it to a reader ({{hash, length {n}}}) {op.get("inject_after")} loop iteration(s) after it '
+                              f'became verified and then delivered {len(body)} bytes (connection '
+                              f'{"closed" if reader.lost is not None else "left open"}): its own downloader closed the blob under '
+                              f'the transfer', via='serving', jsonlike=False)
+        else:
+            run.probes['serving_answered_not_available'] += 1      # legitimate: it may not have counted as verified yet
+        if ct is not None and reader.lost is None:
+            ct.close()
+
     # ---- scripted hostile client --------------------------------------------------------------------
     class HostileClient(asyncio.Protocol):
         def __init__(self):
@@ -1159,6 +1282,11 @@ def execute(scenario, keep_trace=False):
             for op in ops:
                 if op['op'] == 'race':
                     await race_session(op)
+                    break
+        elif fam == 'serving':
+            for op in ops:
+                if op['op'] == 'serving':
+                    await serving_session(op)
                     break
         else:
             await start_real_server()
